@@ -51,3 +51,14 @@ def map_field_of(t):
         if is_call(s, "Distinfo::get_patchfile"):
             out.add("patchfiles")
     return out
+
+
+def distinfo_accessors(ctx, rule, only=None):
+    """Distinfo's read accessors return what the maps hold: rcsid, get_distfile/get_patchfile (lookup by the caller's name in the
+    matching map), distfiles/patchfiles (every entry, in map = first-appearance order)"""
+    table = (("rcsid", "rcsid", "field"), ("get_distfile", "distfiles", "get"), ("get_patchfile", "patchfiles", "get"),
+             ("distfiles", "distfiles", "values"), ("patchfiles", "patchfiles", "values"))
+    for fn, fld, mode in table:
+        if only and fn not in only:
+            continue
+        accessor_faithful(ctx, rule, "distinfo::Distinfo::%s" % fn, fld, mode)
